@@ -46,7 +46,12 @@ def sha_tree():
 
 
 def run_verus(path, extra=None, timeout=3600):
-    cmd = ["verus", path] + VERUS_FLAGS + (extra or [])
+    flags = list(VERUS_FLAGS)
+    extra = list(extra or [])
+    if "--rlimit" in extra:     # an explicit limit replaces the default one (verus rejects a repeated option)
+        i = flags.index("--rlimit")
+        del flags[i:i + 2]
+    cmd = ["verus", path] + flags + extra
     t0 = time.time()
     p = subprocess.run(cmd, capture_output=True, text=True, timeout=timeout)
     wall = time.time() - t0
@@ -272,6 +277,10 @@ def compute(tier):
                 alt = run_verus(os.path.join(cdir, "woven.rs"),
                                 ["--smt-option", "smt.random_seed=%d" % (seed + k), "--rlimit", "1600"])
                 f2, _, _ = map_diags(meta, alt["diags"], "woven.rs")
+                if alt["out"] is None:
+                    # the retry did not run: it says nothing about stability
+                    tool.append("retry with another seed produced no result json: %s" % alt["stderr_tail"][-300:])
+                    f2 = dict(failed)
                 still = set(f2) if still is None else (still & set(f2))
             for oid in list(failed):
                 if oid not in still:
@@ -292,6 +301,8 @@ def compute(tier):
             if fmeta is not None:
                 fr = run_verus(os.path.join(fdir, "woven.rs"), ["--smt-option", "smt.random_seed=%d" % seed, "--rlimit", "800"])
                 ff, ftool, _ = map_diags(fmeta, fr["diags"], "woven.rs")
+                if fr["out"] is None:
+                    ftool.append("verus produced no result json: %s" % fr["stderr_tail"][-300:])
                 n_loops = sum(1 for f in fmeta["functions"] for x in f["rules_applied"] if x["rule"] == "R11w")
                 forced = {"loops_desugared": n_loops, "wall_s": round(fr["wall_s"], 1),
                           "same_verdicts": set(ff) == set(failed) and not ftool,
@@ -301,6 +312,8 @@ def compute(tier):
                                 % (forced["differences"], ftool[:2]))
         vac = run_verus(os.path.join(cdir, "woven_vacuity.rs"))
         vfailed, vtool, _ = map_diags(vmeta, vac["diags"], "woven_vacuity.rs")
+        if vac["out"] is None:
+            vtool.append("vacuity run produced no result json: %s" % vac["stderr_tail"][-300:])
         vlines = set()
         for dd in vac["diags"]:
             if dd.get("level") == "error":
